@@ -4,4 +4,6 @@ import Beeb.Props.C14
 #print axioms Beeb.Props.C14.C14_space_single
 #print axioms Beeb.Props.C14.C14_space_watford
 #print axioms Beeb.Props.C14.C14_map_owned
+#print axioms Beeb.Props.C14.C14_map_owned_volume
+#print axioms Beeb.Props.C14.C14_map_owned_disc
 #print axioms Beeb.Props.C14.C14_unused_spans
